@@ -433,6 +433,23 @@ def run(tier):
     if len(ctx.funsor) != 1:
         out.machinery.append({"clause": "import", "detail": "workers imported funsor from %s" % sorted(ctx.funsor)})
     out.violations.extend(reduce_violations(ctx.viol))
+    # WeakFinal (a theorem of ConsCache.tla for every behaviour) observed at the END of more public
+    # constructor paths than the recipes of the lenses: harness/consweep.py, in a fresh process
+    sweep = {}
+    try:
+        import json as _json
+        import subprocess
+        import sys as _sys
+        pr = subprocess.run([_sys.executable, "-m", "harness.consweep"], capture_output=True, text=True, timeout=300)
+        sweep = _json.loads(pr.stdout) if pr.returncode == 0 and pr.stdout.strip() else {}
+        if not sweep:
+            out.machinery.append({"clause": "consweep", "detail": (pr.stderr or "no output")[-300:]})
+        for v in sweep.get("violations", []):
+            v = dict(v)
+            v["engine"] = "ConsCache/WeakFinal-sweep"
+            out.violations.append(v)
+    except Exception as e:  # noqa
+        out.machinery.append({"clause": "consweep", "detail": repr(e)[:200]})
     exhaustive_runs = [r for r in ctx.tlc_runs if not r.get("simulate") and not r["name"].startswith("trace")]
     out.coverage = {
         "states": sum(r["distinct"] for r in ctx.tlc_runs),
@@ -453,6 +470,8 @@ def run(tier):
         "selftest_corrupted_events_rejected": ctx.counts["selftest_corrupted_events_rejected"],
         "model_depth": P["deep"], "replay_depth": P["emit"], "random_depth": P["sim"][0],
         "funsor": sorted(ctx.funsor),
+        "weak_final_api_paths": {k: ("declined" if "declined" in v else "no growth" if not any(v["growth_per_round"][1:]) else "growth")
+                                 for k, v in sweep.get("paths", {}).items()},
         "tlc_runs": sorted(ctx.tlc_runs, key=lambda r: r["name"])[:40],
         "exhaustive": all(r["ok"] or r.get("counterexample_found") for r in exhaustive_runs),
     }
